@@ -223,6 +223,9 @@ def make_designs(ctx: Ctx, n: int, focus_over: dict | None = None):
 
 def files(ctx: Ctx):
     triples = make_designs(ctx, ctx.n(120, 1500))
+    for j, (d, d2, L) in enumerate(triples):
+        if d.get('mask') and j % 2 == 0:
+            d['bom'] = ['mask']        # the BED file starts with a byte-order mark: its first interval still counts
     res = pool_map(run_pair, [(d, d2) for d, d2, L in triples], chunksize=2)
     for (d, d2, L), (_, r, r2) in zip(triples, res):
         for v in L.vs:
@@ -741,6 +744,72 @@ def upstream_frameshift_stage(ctx: Ctx, accept=None):
                 ctx.violation('spec_violation', 'frame-shifting background indel upstream - ' + v['what'], v['case'])
 
 
+def compensating_design(rng):
+    """Two non-coding background indels of the same size and opposite sign around a targeton (net length change of the context: zero): between
+    them every coordinate is shifted, after them none."""
+    d = gen.gen_sge(rng, {'p_bg': 0.0, 'p_gtf': 1.0, 'p_custom': 0.3, 'p_pam': 0.5, 'p_table': 0.0, 'n_exons': rng.choice([2, 3, 3]), 'allow_junction_pam': False,
+                          'n_targetons': rng.choice([1, 2])})
+    if not d.get('gtf'):
+        return None
+    U = d['ref'].upper()
+    exons = gen.exons_of(d)
+    t = rng.choice(d['targetons'])
+    lo = min([e[0] for e in exons] + [x['ref_start'] for x in d['targetons']])
+    hi = max([e[1] for e in exons] + [x['ref_end'] for x in d['targetons']])
+    k = rng.choice([1, 2, 3, 4])
+    hard = set()
+    for e in exons:
+        hard |= set(range(e[0] - 3, e[1] + 4))
+    for x in d['targetons']:
+        for b in (x['ref_start'], x['ref_end'], x['r2_start'], x['r2_end'], x['r2_start'] - x['ext'][0], x['r2_end'] + x['ext'][1]):
+            hard |= set(range(b - 2, b + 3))
+    for e in d.get('pam') or []:
+        hard |= set(range(e['pos'] - 2, e['pos'] + 3))
+    for f in d.get('vcfs') or []:
+        for r in f['records']:
+            hard |= set(range(r['pos'] - 2, r['pos'] + len(r['ref']) + 3))
+    safe = lambda p: all(q not in hard for q in range(p, p + k + 2))
+    before = [p for p in range(max(lo + 1, 4), t['r2_start'] - k - 2) if safe(p)]
+    after = [p for p in range(t['r2_end'] + 2, hi - k - 2) if safe(p)]
+    if not before or not after:
+        return None
+    p1, p2 = rng.choice(before), rng.choice(after)
+    ins = {'pos': p1, 'ref': U[p1 - 1], 'alts': [U[p1 - 1] + gen.rand_dna(rng, k)], 'id': 'bgins'}
+    dele = {'pos': p2, 'ref': U[p2 - 1:p2 + k], 'alts': [U[p2 - 1]], 'id': 'bgdel'}
+    d['bg'] = [ins, dele] if rng.random() < 0.5 else [dict(dele, pos=p1, ref=U[p1 - 1:p1 + k], alts=[U[p1 - 1]]), dict(ins, pos=p2, ref=U[p2 - 1], alts=[U[p2 - 1] + gen.rand_dna(rng, k)])]
+    d.pop('mask', None)
+    lifted = bg.lift_design(d)
+    if lifted is None:
+        return None
+    return d, lifted[0], lifted[1]
+
+
+def compensating_stage(ctx: Ctx, accept=None):
+    import random
+    rng = random.Random(f'C06-compensating-indels-{ctx.seed}')
+    sub = ctx if accept is None else Ctx('C06', ctx.tier, ctx.seed, None)
+    if accept is not None:
+        sub.known, sub.matchers = [], {}
+    triples = []
+    for _ in range(80 * ctx.n(10, 100)):
+        if len(triples) >= ctx.n(10, 100):
+            break
+        t = compensating_design(rng)
+        if t is not None:
+            triples.append(t)
+    res = pool_map(run_pair, [(d, d2) for d, d2, L in triples], chunksize=2)
+    for (d, d2, L), (_, r, r2) in zip(triples, res):
+        ctx.count('designs_with_compensating_indels')
+        compare(sub, d, d2, L, r, r2)
+    if accept is not None:
+        ctx.evaluations += sub.evaluations
+        for v in sub.violations:
+            kind = v['case'].get('kind', '')
+            if (kind != 'row_not_dropped' or v['case'].get('mutator') == 'custom') and accept(kind, v['what']):
+                v['case']['via'] = 'compensating_indels_pair'
+                ctx.violation('spec_violation', 'background indels whose lengths cancel - ' + v['what'], v['case'])
+
+
 def run(ctx: Ctx):
     context_stage(ctx)
     files(ctx)
@@ -749,6 +818,7 @@ def run(ctx: Ctx):
     two_strand_stage(ctx)
     pam_codon_stage(ctx)
     upstream_frameshift_stage(ctx)
+    compensating_stage(ctx)
     return {'rule': 'Metamorphic on the real tool: random SGE designs with background SNV/MNV anywhere and non-coding insertions/deletions upstream of, inside and '
                     'downstream of the targetons (with BED masks, PAM edits, custom variants, 1-3 targetons) are run next to the same design on the pre-edited genome '
                     '(reference = splice of the unmasked variants, every coordinate lifted): rows must correspond one-to-one on all content columns except those touching '
